@@ -133,7 +133,7 @@ def run(ctx, crate):
         a = w.analyze[0]
         ok = len(a.args) == 3 and not any(T.contains(x, w.acc) for x in a.args) \
             and not any(T.contains(x, a.result) for x in a.args) \
-            and a.args[2] == ("elem", ("param", 2)) and w.reads and T.contains(a.args[0], w.reads[0].result) \
+            and a.args[2] == ("elem", w.pat) and w.reads and T.contains(a.args[0], w.reads[0].result) \
             and a.args[1][0] == "idx"
         obs.append(Ob("R15.perfile", w.path, "the per-file call sees only this file's content, the index and the pattern", ok, site=a.where,
                       found=[show(x)[:70] for x in a.args]))
@@ -169,6 +169,8 @@ def run(ctx, crate):
                 name = s.path.rsplit("::", 1)[-1]
                 if i == 0 and (s.path.endswith(GROW) or name in READ_ONLY):
                     continue
+                if getattr(w, "style", "") == "accumulator" and (s.resolved == w.walker_path or s.path == w.walker_path) and i == int(w.acc_param[1]) - 1 and a == w.acc:
+                    continue  # handed on to the nested walk, which is this same function
                 bad.append("argument %d of %s at line %s" % (i, short(s.path), s.where.rsplit(":", 1)[-1]))
         obs.append(Ob("R15.retain", w.path, "findings recorded for earlier files are only added to (accumulator used as receiver of grow-only operations)",
                       not bad and n > 0 and w.acc[0] != "phi", expected="entry / or_insert / push / append / extend with the accumulator as receiver",
